@@ -15,21 +15,29 @@ struct Counting;
 static LIVE: std::sync::atomic::AtomicIsize = std::sync::atomic::AtomicIsize::new(0);
 // counting is switched on by the single-threaded `leak` mode only (a shared counter would serialise the threaded modes)
 static COUNTING: std::sync::atomic::AtomicBool = std::sync::atomic::AtomicBool::new(false);
+// ... and only on the thread that is measuring, while it measures: the pool's monitor thread allocates and frees on its own
+// (records handed over, the memory guard's read of /proc) and must not show up in a case's balance
+thread_local! {
+    static MEASURING: std::cell::Cell<bool> = const { std::cell::Cell::new(false) };
+}
+fn counted() -> bool {
+    COUNTING.load(std::sync::atomic::Ordering::Relaxed) && MEASURING.try_with(|m| m.get()).unwrap_or(false)
+}
 unsafe impl std::alloc::GlobalAlloc for Counting {
     unsafe fn alloc(&self, l: std::alloc::Layout) -> *mut u8 {
-        if COUNTING.load(std::sync::atomic::Ordering::Relaxed) {
+        if counted() {
             LIVE.fetch_add(l.size() as isize, std::sync::atomic::Ordering::Relaxed);
         }
         std::alloc::System.alloc(l)
     }
     unsafe fn dealloc(&self, p: *mut u8, l: std::alloc::Layout) {
-        if COUNTING.load(std::sync::atomic::Ordering::Relaxed) {
+        if counted() {
             LIVE.fetch_sub(l.size() as isize, std::sync::atomic::Ordering::Relaxed);
         }
         std::alloc::System.dealloc(p, l)
     }
     unsafe fn realloc(&self, p: *mut u8, l: std::alloc::Layout, n: usize) -> *mut u8 {
-        if COUNTING.load(std::sync::atomic::Ordering::Relaxed) {
+        if counted() {
             LIVE.fetch_add(n as isize - l.size() as isize, std::sync::atomic::Ordering::Relaxed);
         }
         std::alloc::System.realloc(p, l, n)
@@ -985,6 +993,7 @@ fn leak_case(line: &str) -> Vec<String> {
     }
     // the measured call comes BEFORE the traced run of the same input
     let measure = |src: &str| -> isize {
+        MEASURING.with(|f| f.set(true));
         let before = live();
         {
             let mut g = mk_generator(&m);
@@ -993,7 +1002,9 @@ fn leak_case(line: &str) -> Vec<String> {
             g.reset();
             drop(g);
         }
-        live() - before
+        let d = live() - before;
+        MEASURING.with(|f| f.set(false));
+        d
     };
     let d1 = measure(&m["src"]);
     // bytes that stay allocated once only (a lazily initialised table on a rarely taken path) are not a leak: a leak
